@@ -5,6 +5,7 @@ package main
 // The parent (childPool) classifies: answer / child died (crash) / no answer in time (hang).
 
 import (
+	sqlkw "github.com/ajitpratap0/GoSQLX/pkg/sql/keywords"
 	"bufio"
 	"context"
 	"errors"
@@ -44,6 +45,60 @@ func errCode(err error) string {
 		return "ctx-deadline"
 	}
 	return "unstructured"
+}
+
+// limitEntryPoints: every way of obtaining a tokenizer (constructors, pool, reuse) and the byte-string entry points
+// built on them, for the limit probes of C02: a limit holds whatever the instance's origin.
+var limitEntryPoints = map[string]func(in []byte) error{
+	"tokenize:dialect": func(in []byte) error {
+		t, err := tokenizer.NewWithDialect(sqlkw.DialectPostgreSQL)
+		if err != nil {
+			return err
+		}
+		_, err = t.Tokenize(in)
+		return err
+	},
+	"tokenize:keywords": func(in []byte) error {
+		t, err := tokenizer.NewWithKeywords(sqlkw.NewKeywords())
+		if err != nil {
+			return err
+		}
+		_, err = t.Tokenize(in)
+		return err
+	},
+	"tokenizectx:keywords": func(in []byte) error {
+		t, err := tokenizer.NewWithKeywords(sqlkw.NewKeywords())
+		if err != nil {
+			return err
+		}
+		_, err = t.TokenizeContext(context.Background(), in)
+		return err
+	},
+	"tokenize:pool": func(in []byte) error {
+		t := tokenizer.GetTokenizer()
+		defer tokenizer.PutTokenizer(t)
+		_, err := t.Tokenize(in)
+		return err
+	},
+	"tokenizectx:pool": func(in []byte) error {
+		t := tokenizer.GetTokenizer()
+		defer tokenizer.PutTokenizer(t)
+		_, err := t.TokenizeContext(context.Background(), in)
+		return err
+	},
+	"tokenize:reused": func(in []byte) error {
+		t, _ := tokenizer.New()
+		_, _ = t.Tokenize([]byte("SELECT 1"))
+		t.Reset()
+		_, err := t.Tokenize(in)
+		return err
+	},
+	"tokenize:setdialect": func(in []byte) error {
+		t, _ := tokenizer.New()
+		t.SetDialect(sqlkw.DialectMySQL)
+		_, err := t.Tokenize(in)
+		return err
+	},
 }
 
 // entryPoints: every public entry point named by C01, keyed by a short name.
@@ -200,6 +255,9 @@ func runEntry(op string, data []byte) (ans string) {
 		return childExtra(op[2:], data)
 	}
 	f := entryPoints[op]
+	if f == nil {
+		f = limitEntryPoints[op]
+	}
 	if f == nil {
 		return "bad-op"
 	}
